@@ -103,8 +103,48 @@ CrossCfgs ==
   \cup {<<q, b, Valid("A"), Absent>> : q \in {Absent, Valid("A")}, b \in SizeIll}
 CrossCases == {Case("cross", p, "cross", c) : p \in {"bsp", "blrp"}, c \in CrossCfgs}
 
+(* ---- value class HUGE (family "huge"): a syntactically valid integer whose unit conversion overflows ----
+   durations in milliseconds (v = what a wrapping conversion to nanoseconds would yield: "neg", "zero", "pos" --
+   three representatives tables, ONE meaning), an option holding the largest representable duration, a batch size
+   near MaxInt.  Star-shaped: the huge source in every position, every other source absent / valid / unparsable.
+   Queue sizes are not enumerated: honouring one means allocating it (see docs/notes/C20.md). *)
+HugeEnv == {Src("huge", "neg"), Src("huge", "zero"), Src("huge", "pos")}
+HugeOpt == {Src("huge", "max")}
+Plain(id) == {Absent, Valid(id)}
+HugeTimeoutCases ==
+  {Case("scalar", c, "timeout", srcs) : c \in Exporters,
+     srcs \in {<<o, s, g>> : o \in HugeOpt, s \in Plain("S"), g \in Plain("G")}
+           \cup {<<o, s, g>> : o \in Plain("O"), s \in HugeEnv, g \in Plain("G") \cup {Bad("nonnum")}}
+           \cup {<<o, s, g>> : o \in Plain("O"), s \in Plain("S") \cup {Bad("nonnum")}, g \in HugeEnv}
+           \cup {<<Absent, s, g>> : s \in HugeEnv, g \in HugeEnv}}
+HugeSDKSettings == {"bsp.timeout", "bsp.delay", "bsp.batch", "blrp.timeout", "blrp.delay", "blrp.batch"}
+HugeSDKCases ==
+  {Case("scalar", "sdk", st, srcs) : st \in HugeSDKSettings,
+     srcs \in {<<o, e>> : o \in HugeOpt, e \in Plain("S") \cup {Bad("nonnum")}}
+           \cup {<<o, e>> : o \in Plain("O") \cup {Bad("neg")}, e \in HugeEnv}}
+HugeCases == HugeTimeoutCases \cup HugeSDKCases
+
+(* ---- URL path classes (family "paths"): plain is the base product above; here paths whose characters need
+   percent-encoding (raw space), that are already escaped ("%20"), that hold an escaped reserved character
+   ("%2F"), sub-delimiters ('+', ';'), an escaped path with a trailing slash, and a URL with a query string --
+   through the signal variable, the generic variable, WithEndpointURL and WithURLPath of the three HTTP
+   exporters, alone and over / under a plain source of the other kinds. *)
+PathVals(base) == {base \o " a", base \o "%20a", base \o "%2Fa", base \o "+a;b", base \o "%20a/", base \o "?q=1"}
+PathCases ==
+  UNION {
+    {Case("endpoint", c, "endpoint", <<Absent, Src("url", v), g>>) : v \in PathVals("/s"), g \in {Absent, Src("url", "/g")}}
+    \cup {Case("endpoint", c, "endpoint", <<o, Absent, Src("url", v)>>) : v \in PathVals("/g"), o \in {Absent, Bad("host")}}
+    \cup {Case("endpoint", c, "endpoint", <<Src("url", v), s, Absent>>) : v \in PathVals("/o"), s \in {Absent, Src("url", "/s")}}
+    \cup {Case("endpoint", c, "endpoint", <<Src(k, v), Absent, g>>) :
+            k \in {"path", "hostpath"}, v \in PathVals("/o") \ {"/o?q=1"}, g \in {Absent, Src("url", "/g")}}
+    \cup {Case("endpoint", c, "endpoint", <<Absent, Src("url", "/s%20a"), Src("url", "/g%20a")>>),
+          Case("endpoint", c, "endpoint", <<Src("path", "/o%20a"), Src("url", "/s%20a"), Absent>>)}
+    : c \in {x \in Exporters : IsHTTP(x)}}
+
 Cases ==
   (IF "structs" \in Families THEN StructCases ELSE {})
+  \cup (IF "huge" \in Families THEN HugeCases ELSE {})
+  \cup (IF "paths" \in Families THEN PathCases ELSE {})
   \cup (IF "cross" \in Families THEN CrossCases ELSE {})
   \cup (IF "endpoint" \in Families THEN EndpointCases ELSE {})
   \cup (IF "headers" \in Families THEN HeaderCases ELSE {})
@@ -182,6 +222,31 @@ Monotone ==
        (\E j \in 1..(i - 1) : IsValid(TypeOf(act.setting), srcs[j]))
          => Allowed(TypeOf(act.setting), [srcs EXCEPT ![i] = Absent], DefaultOf(act.setting))
               = Allowed(TypeOf(act.setting), srcs, DefaultOf(act.setting))
+
+(* value class HUGE: an overflowing value is either given its meaning (longer / larger than anything observable) or
+   ignored -- the admissible outcomes are exactly that meaning plus what the case admits without the source; no
+   short duration, no crash: nothing else enters the set *)
+HugeInv ==
+  st.phase = "configured" /\ act.fam = "scalar" /\ (\E i \in 1..Len(act.srcs) : act.srcs[i].k = "huge") =>
+    LET T == TypeOf(act.setting)
+        without == [i \in 1..Len(act.srcs) |-> IF act.srcs[i].k = "huge" THEN Absent ELSE act.srcs[i]]
+        m == UNION {Meaning(T, act.srcs[i]) : i \in {j \in 1..Len(act.srcs) : act.srcs[j].k = "huge"}}
+    IN /\ m # {} /\ m \subseteq {"none", "far", "late", "all"}
+       /\ st.allowed \subseteq m \cup AllowedFor([act EXCEPT !.srcs = without]) \cup {DefaultOf(act.setting)}
+       /\ st.allowed \cap {"fast", "expired", "PANIC", "HANG"} = {}
+
+(* URL path classes: a request target is never escaped twice and never loses an escape of the written path (the
+   only admitted "%25" comes from reading a WithURLPath argument as unescaped); the same written URL gives the same
+   target through the signal variable and through WithEndpointURL (uniform across sources) *)
+HasSub(p, x) == \E i \in 1..(Len(p) - Len(x) + 1) : SubSeq(p, i, i + Len(x) - 1) = x
+PathInv ==
+  st.phase = "configured" /\ act.fam = "endpoint" =>
+    /\ (\A i \in 1..3 : act.srcs[i].k \notin {"path", "hostpath"}) =>
+          \A r \in EndpointAllowed(act.comp, act.srcs) : ~HasSub(r.path, "%25") /\ ~HasSub(r.path, " ")
+    /\ (act.srcs[1] = Absent /\ act.srcs[2].k = "url" =>
+          LET viaEnv == {r.path : r \in EndpointAllowed(act.comp, act.srcs)}
+              viaOpt == {r.path : r \in EndpointAllowed(act.comp, <<act.srcs[2], Absent, Absent>>)}
+          IN viaEnv \subseteq viaOpt \/ act.srcs[2].v = "")
 
 (* an empty variable is indistinguishable from an absent one, in every position of every case *)
 EmptyIsUnset ==
